@@ -1875,6 +1875,9 @@ func getIndexMap2(n *node) {
 				v := value0(f).MapIndex(mi)
 				if v.IsValid() {
 					dest(f).Set(v)
+				} else {
+					// The key is absent: the result is the zero value of the map element type.
+					dest(f).SetZero()
 				}
 				if doStatus {
 					value2(f).SetBool(v.IsValid())
@@ -1896,6 +1899,9 @@ func getIndexMap2(n *node) {
 				v := value0(f).MapIndex(value1(f))
 				if v.IsValid() {
 					dest(f).Set(v)
+				} else {
+					// The key is absent: the result is the zero value of the map element type.
+					dest(f).SetZero()
 				}
 				if doStatus {
 					value2(f).SetBool(v.IsValid())
